@@ -47,10 +47,19 @@ static void oslog(int kind, const void *mask, unsigned nbits)
   struct oscall *c = &LOG[nlog++]; memset(c, 0, sizeof(*c)); c->kind = kind;
   if (mask && nbits) { c->has_mask = 1; c->nbits = nbits > 64 * 64 ? 64 * 64 : nbits; memcpy(c->mask, mask, (c->nbits + 7) / 8); }
 }
+/* environment deviation: an emulated cpuset (what a cgroup does): a request without any CPU of the emulated set fails with
+ * EINVAL, any other request is reduced to the emulated set */
+static int emul_on; static cpu_set_t emul_set;
 int sched_setaffinity(pid_t pid, size_t size, const cpu_set_t *mask)
 {
   if (!real_setaff) seam_init();
   if (seam_on) { oslog(OS_SETAFF, mask, (unsigned)size * 8); if (seam_stub) return 0; }
+  if (emul_on) {
+    cpu_set_t eff; CPU_ZERO(&eff); int any = 0;
+    for (int i = 0; i < CPU_SETSIZE && (size_t)i < size * 8; i++) if (CPU_ISSET_S(i, size, mask) && CPU_ISSET(i, &emul_set)) { CPU_SET(i, &eff); any = 1; }
+    if (!any) { errno = EINVAL; return -1; }
+    return real_setaff(pid, sizeof(eff), &eff);
+  }
   return real_setaff(pid, size, mask);
 }
 int pthread_setaffinity_np(pthread_t th, size_t size, const cpu_set_t *mask)
@@ -427,6 +436,14 @@ static void live_roundtrip(hwloc_topology_t t, hwloc_const_bitmap_t S, int varia
   hwloc_bitmap_free(got); hwloc_bitmap_free(raw); hwloc_bitmap_free(loc);
 }
 
+static void live_load_preserves(hwloc_const_bitmap_t S, const char *components, unsigned long flags);
+/* the same with an emulated cpuset E (S inside E): binding to the PUs outside E fails during x86 discovery */
+static void live_load_preserves_emul(hwloc_const_bitmap_t S, hwloc_const_bitmap_t E, const char *components, unsigned long flags)
+{
+  mask_of_cpuset(&emul_set, E); emul_on = 1;
+  live_load_preserves(S, components, flags);
+  emul_on = 0;
+}
 static void live_load_preserves(hwloc_const_bitmap_t S, const char *components, unsigned long flags)
 {
   cpu_set_t m, after; mask_of_cpuset(&m, S); raw_setaff(&m);
@@ -506,6 +523,24 @@ static void stage_live(void)
         if (r) live_load_preserves(S, COMP[c], FL[f]);
       }
     }
+  }
+  /* loads inside an emulated cpuset: E in {first half, even CPUs, all but the last}, S in {E, first CPU of E, last CPU of E} */
+  if (n >= 4) {
+    static const char *COMP2[] = { NULL, "x86,stop", "linux,x86,stop" };
+    hwloc_bitmap_t E = hwloc_bitmap_alloc();
+    for (int e = 0; e < 3; e++) {
+      hwloc_bitmap_zero(E);
+      for (int j = 0; j < n; j++) if ((e == 0 && j < n / 2) || (e == 1 && j % 2 == 0) || (e == 2 && j < n - 1)) hwloc_bitmap_set(E, pos[j]);
+      for (int sv = 0; sv < 3; sv++) {
+        hwloc_bitmap_zero(S); if (sv == 0) hwloc_bitmap_copy(S, E); else hwloc_bitmap_set(S, sv == 1 ? hwloc_bitmap_first(E) : hwloc_bitmap_last(E));
+        for (unsigned c = 0; c < 3; c++, idx++) {
+          if (!mc_mine(idx) || mc_deadline()) continue;
+          char *s = bm(S), *es = bm(E); int r = mc_case("live load bound to {%s} inside an emulated cpuset {%s} components=%s", s, es, COMP2[c] ? COMP2[c] : "(default)"); free(s); free(es);
+          if (r) live_load_preserves_emul(S, E, COMP2[c], 0);
+        }
+      }
+    }
+    hwloc_bitmap_free(E);
   }
   raw_setaff(&orig);
   mc_sample("live subset {%d} -> set_cpubind(THREAD), get_cpubind, get_last_cpu_location, sched_getaffinity", pos[0]);
